@@ -238,6 +238,7 @@ class Impl:
     def op_spec_gfsc(self, f, *a): return self._spec(f)
     def op_spec_gfc(self, f, *a): return self._spec(f)
     def op_spec_gdl1(self, f, *a): return self._spec(f)
+    def op_spec_gdl2(self, f, *a): return self._spec(f)
     def op_spec_gdc(self, f, *a): return self._spec(f)
     def op_spec_subg(self, f, *a): return self._spec(f)
     def op_note(self, *a): return "ok"
@@ -928,6 +929,7 @@ def example_program(c):
     if c["func"] == "wc_gradient_descent_contraction": spec = ["spec.gdc f0 %s %d" % (fr(c["args"]["gamma"]), c["args"]["n"])]
     if c["func"] == "wc_proximal_gradient": spec = ["spec.pg f0 f1 f2 %s %d" % (fr(c["args"]["gamma"]), c["args"]["n"])]
     if c["func"] == "wc_gradient_flow_strongly_convex": spec = ["spec.gfsc f0"]
+    if c["func"] == "wc_gradient_descent_lyapunov_2": spec = ["spec.gdl2 f0 %s %s %d" % (fr(c["args"]["L"]), fr(c["args"]["gamma"]), c["args"]["n"])]
     if c["func"] == "wc_gradient_flow_convex": spec = ["spec.gfc f0 %s" % fr(c["args"]["t"])]
     if c["func"] == "wc_gradient_descent_lyapunov_1": spec = ["spec.gdl1 f0 %s %s %d" % (fr(c["args"]["L"]), fr(c["args"]["gamma"]), c["args"]["n"])]
     if c["func"] == "wc_subgradient_method": spec = ["spec.subg f0 %s %d" % (fr(c["args"]["gamma"]), c["args"]["n"])]
@@ -947,6 +949,10 @@ def gen_methods(seed):
     if seed % 8 == 3:
         L = rnd.choice([1, 2, 0.5, 4, 1.7])
         c = dict(module="PEPit.examples.potential_functions.gradient_descent_lyapunov_1", func="wc_gradient_descent_lyapunov_1",
+                 args=dict(L=L, gamma=rnd.choice([1 / L, 1 / L, 0.5 / L, 1]), n=rnd.randint(0, 12)))
+    elif seed % 16 == 11:
+        L = rnd.choice([1, 2, 0.5, 4, 1.7])
+        c = dict(module="PEPit.examples.potential_functions.gradient_descent_lyapunov_2", func="wc_gradient_descent_lyapunov_2",
                  args=dict(L=L, gamma=rnd.choice([1 / L, 1 / L, 0.5 / L, 1]), n=rnd.randint(0, 12)))
     elif seed % 16 == 15:
         c = dict(module="PEPit.examples.continuous_time_models.gradient_flow_convex", func="wc_gradient_flow_convex",
